@@ -125,14 +125,14 @@ theorem tables_safe_suffix_small (a : TableArgs) (t : TokObj) (toks : TokFn) (cp
 theorem candset_safe_suffix_small (tok : String → List Tok)
     (hnd : ∀ s, (tok s).Nodup) (hsm : ∀ s, (tok s).length < 2 ^ 32)
     (a : CandsetArgs) (cpu : Int) (c l r fr : Frame)
-    (hval : EntryFilters.CandsetValid a c l r) (hres : filterCandset a (filterPair .suffix f tok) cpu = .ok fr)
+    (hval : EntryFilters.CandsetValid a c l r) (hres : filterCandset a (filterPairPy .suffix f tok) cpu = .ok fr)
     (cr ls rs : Row) (hcr : cr ∈ c.rows) (hls : ls ∈ l.rows) (hrs : rs ∈ r.rows)
     (hkl : keyOf l a.lKey ls = cr.cell (c.colIdx a.candLKey)) (hkr : keyOf r a.rKey rs = cr.cell (c.colIdx a.candRKey))
     (hlp : Present l a.lAttr ls) (hrp : Present r a.rAttr rs)
     (hne : ¬ ((tokensOf tok l a.lAttr ls).length = 0 ∧ (tokensOf tok r a.rAttr rs).length = 0))
     (s : Rat) (hs : simSet m (tokensOf tok l a.lAttr ls) (tokensOf tok r a.rAttr rs) = .float s) (hq : thr ≤ s) :
     cr ∈ fr.rows :=
-  candset_safe_of_pair a _ cpu c l r fr hval hres cr ls rs hcr hls hrs hkl hkr
+  candset_safe_of_pair a _ _ (filterPairPy_ok_eq _ _ _) cpu c l r fr hval hres cr ls rs hcr hls hrs hkl hkr
     (SuffixSmall.filterPair_suffix_safe_set m hm thr ht f hmeas hthr tok hnd hsm _ _ hlp hrp hne s hs hq)
 
 end SetMeasuresSuffix
@@ -185,14 +185,14 @@ theorem tables_safe_suffix_ed (a : TableArgs) (t : TokObj) (toks : TokFn) (cpu :
 theorem candset_safe_suffix_ed (hf : f.cfg = { measure := .editDistance, threshold := .int tau, qval := .int q })
     (a : CandsetArgs) (cpu : Int) (c l r fr : Frame)
     (hval : EntryFilters.CandsetValid a c l r)
-    (hres : filterCandset a (filterPair .suffix f (qgrams q pad)) cpu = .ok fr)
+    (hres : filterCandset a (filterPairPy .suffix f (qgrams q pad)) cpu = .ok fr)
     (cr ls rs : Row) (hcr : cr ∈ c.rows) (hls : ls ∈ l.rows) (hrs : rs ∈ r.rows)
     (hkl : keyOf l a.lKey ls = cr.cell (c.colIdx a.candLKey)) (hkr : keyOf r a.rKey rs = cr.cell (c.colIdx a.candRKey))
     (hlp : Present l a.lAttr ls) (hrp : Present r a.rAttr rs)
     (hd : qualED "<=" tau (strOf l a.lAttr ls) (strOf r a.rAttr rs) = true)
     (hshare : shareToken (qgrams q pad) (strOf l a.lAttr ls) (strOf r a.rAttr rs) = true) :
     cr ∈ fr.rows :=
-  candset_safe_of_pair a _ cpu c l r fr hval hres cr ls rs hcr hls hrs hkl hkr
+  candset_safe_of_pair a _ _ (filterPairPy_ok_eq _ _ _) cpu c l r fr hval hres cr ls rs hcr hls hrs hkl hkr
     (SuffixBag.suffixFilterPair_safe_ed f tau q hf pad _ _ hlp hrp ((EntryED.qualED_le_iff _ _ _).1 hd) hshare)
 
 end EditDistanceSuffix
@@ -286,7 +286,7 @@ example : filterPair .suffix { cfg := cfgOf .jaccard (1 / 100000) } exTok (.str 
 example : ∃ fr, filterTables .suffix { cfg := cfgOf .jaccard (1 / 100000) } exA exT exToks 4 = .ok fr ∧
     ∃ row ∈ fr.rows, rowKeys row = (Cell.int 1, Cell.int 7) := by
   obtain ⟨fr, hfr⟩ := tables_returns_frame .suffix { cfg := cfgOf .jaccard (1 / 100000) } exA exT exToks 4 exL exR
-    ex_valid ex_keys
+    ex_valid ex_keys (by decide +kernel)
   refine ⟨fr, hfr, ?_⟩
   exact tables_safe_suffix_small .jaccard (Or.inl rfl) (1 / 100000) ex_thr_tiny _ rfl rfl exA exT exToks 4 exL exR fr
     ex_valid ex_keys (by decide) exTok_nodup exTok_small hfr [.int 1, .str "x"] [.int 7, .str "y"]
@@ -304,6 +304,7 @@ example : ∃ fr, filterTables .suffix { cfg := { measure := .editDistance, thre
       edA edT edToks 4 = .ok fr ∧ ∃ row ∈ fr.rows, rowKeys row = (Cell.int 1, Cell.int 7) := by
   obtain ⟨fr, hfr⟩ := tables_returns_frame .suffix
     { cfg := { measure := .editDistance, threshold := .int 1, qval := .int 2 } } edA edT edToks 4 edL edR ed_valid ed_keys
+    (by decide +kernel)
   refine ⟨fr, hfr, ?_⟩
   exact tables_safe_suffix_ed _ 1 2 true edA edT edToks 4 edL edR fr ed_valid ed_keys (by decide) (fun _ => rfl) rfl
     hfr [.int 1, .str "aab"] [.int 7, .str "aaab"] (by decide) (by decide) (by unfold Present; decide)
